@@ -36,16 +36,22 @@ extern "C" { QString *vp_jidBare; }
 QString QXmppConfiguration::jidBare() const { return *vp_jidBare; }
 // QXmppUtils::generateStanzaUuid is modelled in models.c: it hands out these (arbitrary) strings
 extern "C" { QString *vp_uuid[2]; unsigned vp_uuid_n; unsigned vp_cfg(); }
+// ~QXmppOutgoingClient: flushing the stream-management cache is C09's subject
+static int g_resetCacheCalls;
+void StreamAckManager::resetCache() { g_resetCacheCalls++; }
 
 // ---------------------------------------------------------------- fixture
 static_assert(sizeof(OutgoingIqManager) == 16 + sizeof(VpIqMap), "layout of OutgoingIqManager: { l, &streamAckManager, m_requests }");
 static_assert(sizeof(QXmppOutgoingClient) == 24, "layout of QXmppOutgoingClient: { QObject, d }");
-struct Obs { int done; int kind; bool sendError; bool stanzaError; QDomElement el; };
+struct Obs { int done; int kind; bool sendError; int sendErrorValue; bool stanzaError; QDomElement el; };
 static Obs obs[3];
+// typed but unconstructed storage (a union member is not constructed implicitly): unlike a char buffer it keeps pointers that the
+// real code stores into the object as pointers for the solver
+template<typename T> union VpTyped { T v; VpTyped() { } ~VpTyped() { } T *p() { return &v; } T *operator->() { return &v; } };
 struct Fixture {
-    VpRaw<QXmppOutgoingClientPrivate> priv;     // raw storage: only iqManager is constructed; streamAckManager.send / config.jidBare are cut
-    VpRaw<QXmppOutgoingClient> client;          // raw storage: only `d` is set
-    VpRaw<QXmppLoggable> logger;                // raw storage: logMessage() is a no-op model
+    VpTyped<QXmppOutgoingClientPrivate> priv;   // only iqManager is constructed; streamAckManager.send / config.jidBare are cut
+    VpTyped<QXmppOutgoingClient> client;        // only `d` is set
+    VpRaw<QXmppLoggable> logger;                // raw storage: never touched (logMessage() is a no-op model)
     OutgoingIqManager *mgr;
     VpIqMap *map;
     bool used[3];
@@ -57,7 +63,7 @@ struct Fixture {
     {
         mgr = new (&priv->iqManager) OutgoingIqManager(logger.p(), priv->streamAckManager);
         map = reinterpret_cast<VpIqMap *>(reinterpret_cast<char *>(mgr) + 16);
-        *reinterpret_cast<void **>(client.b + 16) = priv.p();
+        *reinterpret_cast<void **>(reinterpret_cast<char *>(client.p()) + 16) = priv.p();
         // arbitrary valid table: ids non-empty and distinct, addressees non-empty, promises unfinished.
         // (all slots hold constructed objects so that every pointer the solver sees is concrete; `used` decides what exists)
         for (int i = 0; i < VP_MAP_CAP; i++) {
@@ -65,7 +71,7 @@ struct Fixture {
             jid[i] = vpSymStringNonEmpty(3);
             new (map->slot(i)) VpIqMap::value_type(key[i], IqState { {}, jid[i] });
             used[i] = i < 2 ? vp_bool() : false;
-            map->t->used[i] = used[i];
+            map->t->s[i]->used = used[i];
             task[i].emplace(map->slot(i)->second.interface.task());
         }
         vp_assume(!(used[0] && used[1] && key[0] == key[1]));
@@ -79,7 +85,9 @@ struct Fixture {
             obs[i].done++;
             obs[i].kind = int(r.index());
             if (auto *e = std::get_if<QXmppError>(&r)) {
-                obs[i].sendError = std::any_cast<SendError>(&e->error) != nullptr;
+                auto *se = std::any_cast<SendError>(&e->error);
+                obs[i].sendError = se != nullptr;
+                obs[i].sendErrorValue = se ? int(*se) : -1;
                 obs[i].stanzaError = std::any_cast<QXmppStanza::Error>(&e->error) != nullptr;
             } else {
                 obs[i].el = std::get<QDomElement>(r);
@@ -140,17 +148,172 @@ extern "C" void h_stanza()
     vp_assert(f.map->size() == (f.used[0] ? 1u : 0u) + (f.used[1] ? 1u : 0u) - (any ? 1u : 0u), "C07 table holds exactly the still pending requests");
     vp_assert(g_sendCalls == 0, "C07 a reply sends nothing");
 }
-#ifdef VP_PROBES
-extern "C" void h_p1() { Fixture f; vp_assert(f.mgr->hasId(f.key[0]) == f.used[0], "C07 probe"); }
-extern "C" void h_p2()
+
+// ---------------------------------------------------------------- events: session opened / closed, cancelAll, destruction of the stream
+extern "C" void h_session()
 {
     Fixture f;
-    QString tag = vpSymString(3), ns;
-    QDomElement el; vp_dom_new(&el, &tag, &ns);
-    QString type = vpSymString(6), id = vpSymString(2), from = vpSymString(3);
-    QString nType = QStringLiteral("type"), nId = QStringLiteral("id"), nFrom = QStringLiteral("from");
-    vp_dom_set_attr(&el, &nType, &type); vp_dom_set_attr(&el, &nId, &id); vp_dom_set_attr(&el, &nFrom, &from);
-    bool ret = f.mgr->handleStanza(el);
-    vp_assert(f.mgr->hasId(f.key[0]) || !f.used[0] || ret, "C07 probe");
+    unsigned ev = vp_u8() % 4;
+    bool flag = vp_bool(), cancel;
+    if (ev == 0) {
+        SessionBegin s { vp_bool(), flag, vp_bool(), vp_bool(), AuthenticationMethod(vp_u8() % 3) };
+        f.mgr->onSessionOpened(s);
+        cancel = !flag;     // a new (not resumed) stream cannot deliver the replies
+    } else if (ev == 1) {
+        SessionEnd s { flag };
+        f.mgr->onSessionClosed(s);
+        cancel = !flag;     // the stream cannot be resumed
+    } else if (ev == 2) {
+        f.mgr->cancelAll();
+        cancel = true;
+    } else {
+        f.client->QXmppOutgoingClient::~QXmppOutgoingClient();
+        cancel = true;
+    }
+    f.settle();
+    for (int i = 0; i < 2; i++) {
+        if (!f.used[i]) continue;
+        if (cancel) {
+            f.completedOnce(i);
+            vp_assert(obs[i].done == 1, "C07 ending the session without resumption completes every pending request exactly once");
+            vp_assert(obs[i].kind == 1 && obs[i].sendError && obs[i].sendErrorValue == int(SendError::Disconnected), "C07 a cancelled request completes with a disconnect error");
+        } else {
+            f.untouched(i);
+        }
+    }
+    if (cancel) vp_assert(f.map->empty(), "C07 no request stays in the table after cancellation");
+    vp_assert(g_sendCalls == 0, "C07 session events send no request");
 }
-#endif
+
+// ---------------------------------------------------------------- event: a request is issued
+struct SendOracle {
+    // after the call: `t` is the returned task, (id, to) the effective id / addressee the reference transition expects
+    static void check(Fixture &f, QXmppTask<IqResult> &t, const QString &id, const QString &to)
+    {
+        bool dup = (f.used[0] && id == f.key[0]) || (f.used[1] && id == f.key[1]);
+        bool invalid = id.isEmpty() || dup || to.isEmpty();
+        unsigned before = (f.used[0] ? 1u : 0u) + (f.used[1] ? 1u : 0u);
+        // nothing that was pending before is touched, whatever happens to the new request
+        bool later = false, laterError = false;
+        if (!invalid && g_sendMode == 2) {
+            vp_assert(g_pendingSend.has_value(), "C07 the packet was handed to the stream");
+            later = vp_bool();
+            if (later && g_pendingSend) {
+                laterError = vp_bool();
+                if (laterError) g_pendingSend->finish(QXmppError { QString(), SendError::Disconnected });
+                else g_pendingSend->finish(SendSuccess { vp_bool() });
+            }
+        }
+        f.task[2].emplace(t);
+        f.watch(2);
+        f.settle();
+        for (int i = 0; i < 2; i++) if (f.used[i]) f.untouched(i);
+        if (invalid) {
+            vp_assert(t.isFinished() && obs[2].done == 1, "C07 a request with an empty / duplicate id or without addressee completes immediately, exactly once");
+            vp_assert(obs[2].kind == 1 && obs[2].sendError, "C07 ... with a send error");
+            vp_assert(g_sendCalls == 0, "C07 a rejected request is not sent");
+            vp_assert(f.map->size() == before, "C07 a rejected request does not change the table");
+        } else {
+            vp_assert(g_sendCalls == 1, "C07 an accepted request is sent exactly once");
+            bool failed = g_sendMode == 1 || (g_sendMode == 2 && later && laterError);
+            if (failed) {
+                vp_assert(obs[2].done == 1 && obs[2].kind == 1 && obs[2].sendError, "C07 a request whose packet could not be sent completes exactly once with the send error");
+                vp_assert(!f.mgr->hasId(id) && f.map->size() == before, "C07 a request that failed to be sent is erased");
+            } else {
+                vp_assert(!t.isFinished() && obs[2].done == 0, "C07 an accepted request stays pending until its reply");
+                auto it = f.map->find(id);
+                vp_assert(it != f.map->end() && f.map->size() == before + 1, "C07 an accepted request is recorded under its id");
+                if (it != f.map->end()) vp_assert(it->second.jid == to, "C07 the addressee recorded for the reply check is the entity the request was sent to");
+            }
+        }
+    }
+};
+extern "C" void h_send_packet()
+{
+    Fixture f;
+    g_sendMode = (vp_cfg() >> 4) & 3;
+    QString id = vpSymString(2), to = vpSymString(3);
+    QXmppPacket pkt(QByteArray(), true);
+    auto t = f.mgr->sendIq(std::move(pkt), id, to);
+    SendOracle::check(f, t, id, to);
+}
+// public entry QXmppOutgoingClient::sendIq(QXmppIq&&): implicit addressee = own bare JID, empty / duplicate ids are replaced
+extern "C" void h_send_iq()
+{
+    Fixture f;
+    g_sendMode = (vp_cfg() >> 4) & 3;
+    QString id = vpSymString(2), to = vpSymString(3), bare = vpSymString(3);
+    QString u0 = vpSymStringNonEmpty(2), u1 = vpSymStringNonEmpty(2);
+    vp_jidBare = &bare; vp_uuid[0] = &u0; vp_uuid[1] = &u1; vp_uuid_n = 0;
+    QXmppIq iq;
+    iq.setId(id);
+    iq.setTo(to);
+    auto t = f.client->sendIq(std::move(iq));
+    // reference: effective addressee and id
+    QString toEff = to.isEmpty() ? bare : to;
+    auto inTable = [&](const QString &x) { return (f.used[0] && x == f.key[0]) || (f.used[1] && x == f.key[1]); };
+    QString idEff = id;
+    unsigned n = 0;
+    if (idEff.isEmpty()) idEff = n++ == 0 ? u0 : u1;
+    if (inTable(idEff)) idEff = n++ == 0 ? u0 : u1;
+    SendOracle::check(f, t, idEff, toEff);
+}
+
+// ---------------------------------------------------------------- internal completion path finish(id, result)
+extern "C" void h_finish()
+{
+    Fixture f;
+    QString id = vpSymString(2);
+    bool asError = vp_bool();
+    QString tag = QStringLiteral("iq"), ns;
+    QDomElement el; vp_dom_new(&el, &tag, &ns);
+    if (asError) f.mgr->finish(id, QXmppError { QString(), SendError::SocketWriteError });
+    else f.mgr->finish(id, el);
+    f.settle();
+    for (int i = 0; i < 2; i++) {
+        if (!f.used[i]) continue;
+        if (id == f.key[i]) {
+            f.completedOnce(i);
+            vp_assert(obs[i].done == 1 && obs[i].kind == (asError ? 1 : 0), "C07 finish(id) completes exactly the request with that id, once, with the given result");
+        } else {
+            f.untouched(i);
+        }
+    }
+}
+
+// ---------------------------------------------------------------- continuation chaining: raw reply -> typed result (QXmppFutureUtils_p.h)
+static int chainRuns, chainKind;
+static bool chainSendError;
+extern "C" void h_chain()
+{
+    static char ctxbuf[16];
+    QObject *ctx = reinterpret_cast<QObject *>(ctxbuf);
+    bool early = vp_cfg() & 1, typed = vp_cfg() & 2;
+    bool asError = vp_bool();
+    QString tag = QStringLiteral("iq"), ns, nId = QStringLiteral("id"), nType = QStringLiteral("type"), id = vpSymString(2), ty = QStringLiteral("result");
+    QDomElement el; vp_dom_new(&el, &tag, &ns); vp_dom_set_attr(&el, &nId, &id); vp_dom_set_attr(&el, &nType, &ty);
+    QXmppPromise<IqResult> p;
+    int before = vp_task_completions;
+    auto fin = [&] { if (asError) p.finish(QXmppError { QString(), SendError::Disconnected }); else p.finish(el); };
+    if (!typed) {
+        // the instantiation of QXmppClient::sendGenericIq (src/client/QXmppClient.cpp)
+        using EmptyResult = std::variant<QXmpp::Success, QXmppError>;
+        auto t = chainIq(p.task(), ctx, [](const QXmppIq &) -> EmptyResult { return QXmpp::Success(); });
+        auto k = [](EmptyResult &&r) { chainRuns++; chainKind = int(r.index()); if (auto *e = std::get_if<QXmppError>(&r)) chainSendError = std::any_cast<SendError>(&e->error) != nullptr; };
+        if (early) { t.then(ctx, k); vp_assert(chainRuns == 0 && !t.isFinished(), "C07 chained task is not complete before the reply"); fin(); }
+        else { fin(); vp_assert(t.isFinished(), "C07 chained task completes with the raw one"); t.then(ctx, k); }
+    } else {
+        // the form used by the bundled managers: chainIq<std::variant<Iq, QXmppError>>(client->sendIq(...), this)
+        using R = std::variant<QXmppIq, QXmppError>;
+        auto t = chainIq<R>(p.task(), ctx);
+        static bool idOk;
+        auto k = [id](R &&r) { chainRuns++; chainKind = int(r.index()); if (auto *e = std::get_if<QXmppError>(&r)) chainSendError = std::any_cast<SendError>(&e->error) != nullptr; else idOk = std::get<QXmppIq>(r).id() == id; };
+        if (early) { t.then(ctx, k); vp_assert(chainRuns == 0 && !t.isFinished(), "C07 chained task is not complete before the reply"); fin(); }
+        else { fin(); vp_assert(t.isFinished(), "C07 chained task completes with the raw one"); t.then(ctx, k); }
+        if (!asError) vp_assert(idOk, "C07 the typed result is parsed from the reply element");
+    }
+    vp_assert(chainRuns == 1, "C07 the typed continuation runs exactly once per request");
+    vp_assert(chainKind == (asError ? 1 : 0), "C07 a reply element becomes the typed result, an error is forwarded as the error");
+    if (asError) vp_assert(chainSendError, "C07 the forwarded error is the one the request completed with");
+    vp_assert(vp_task_completions - before == 2, "C07 raw and chained promise are each finished exactly once");
+}
